@@ -3,6 +3,7 @@
 package funcs
 
 import (
+	"sync"
 	"encoding/binary"
 	"fmt"
 	"net"
@@ -78,6 +79,53 @@ func TestVerifAddrMath(t *testing.T) {
 		t.Fatal(err)
 	}
 	defer w.Close()
+	// "deterministic" also means: the same triple gets the same name when other callers are inside the function at the
+	// same time (the daemon calls it from several goroutines). Every vethname case is recomputed by 8 goroutines at once;
+	// a result that differs from the others (or a panic) replaces the second observation of that case below.
+	type vkey struct {
+		id any
+		i  int
+	}
+	var vmu sync.Mutex
+	odd := map[vkey]string{}
+	first := map[vkey]string{}
+	var vwg sync.WaitGroup
+	for g := 0; g < 8; g++ {
+		vwg.Add(1)
+		go func(g int) {
+			defer vwg.Done()
+			for round := 0; round < 3; round++ {
+				for k := range cases {
+					c := cases[(k+g*7919)%len(cases)]
+					in := vt.Map(c["in"])
+					if vt.Str(in["fn"]) != "vethname" {
+						continue
+					}
+					for i, x := range vt.List(in["ifs"]) {
+						var a string
+						if p := vt.Catch(func() {
+							r, err := link.VethNameForPod(vt.Str(in["name"]), vt.Str(in["ns"]), vt.Str(x), vt.Str(in["prefix"]))
+							if err != nil {
+								r = "!err"
+							}
+							a = r
+						}); p != "" {
+							a = "!panic"
+						}
+						vmu.Lock()
+						key := vkey{fmt.Sprint(c["id"]), i}
+						if f, ok := first[key]; !ok {
+							first[key] = a
+						} else if f != a {
+							odd[key] = a
+						}
+						vmu.Unlock()
+					}
+				}
+			}
+		}(g)
+	}
+	vwg.Wait()
 	for _, c := range cases {
 		in := vt.Map(c["in"])
 		out := vt.M{}
@@ -119,6 +167,12 @@ func TestVerifAddrMath(t *testing.T) {
 					b, e2 := link.VethNameForPod(vt.Str(in["name"]), vt.Str(in["ns"]), vt.Str(x), vt.Str(in["prefix"]))
 					if e1 != nil || e2 != nil {
 						a, b = "", "!"
+					}
+					key := vkey{fmt.Sprint(c["id"]), len(names)}
+					if o, ok := odd[key]; ok {
+						b = o // the concurrent callers did not agree among themselves
+					} else if f, ok := first[key]; ok && f != a {
+						b = f // they agreed, but not with the sequential answer
 					}
 					names, again, lens = append(names, a), append(again, b), append(lens, len(a))
 				}
